@@ -2,7 +2,7 @@
    their dualities.  Only property theorems (closed by `exact`) and Print Assumptions.
    den n l i = "member i of n is selected by verdict list l" is exactly how the filter node
    (Eval.filter_loop) reads a list; vl_ok n l = the list has one entry per member or exactly one. *)
-From JP Require Import Eval Actions Verdict VerdictCompute CompareFacts.
+From JP Require Import Json Tree Eval Actions Spec Verdict VerdictCompute CompareFacts SpecPerm CompareSym.
 Open Scope nat_scope.
 
 Section C09.
@@ -70,6 +70,42 @@ Theorem C09_mirror_eq : forall l r st, rank l <> rank r -> push_compare_eq l r s
 Proof. exact push_compare_eq_sym. Qed.
 Print Assumptions C09_mirror_ord.
 Print Assumptions C09_mirror_eq.
+
+(* ... and when the operands have the SAME rank (two `$` paths, two literals) the two spellings build two
+   different queries that select the same members: `a < b` / `b > a` (all four ordering pairs) for any values,
+   `a == b` / `b == a` between `$` paths whose values are decoded JSON (deep equality is symmetric on documents
+   with distinct keys), and between two scalar literals.  Operands of these kinds are single-valued
+   (C09_root_operand_single; a literal is [Some v] by definition). *)
+Theorem C09_mirror_equal_rank_ord : forall ffun afun regex_match c lp ll rp rl st root vals x y,
+  is_ord c = true -> rank (CP lp ll) = rank (CP rp rl) ->
+  Spec.operand ffun afun regex_match lp root vals = [x] -> Spec.operand ffun afun regex_match rp root vals = [y] ->
+  exists q1 q2, push_compare_ord c (CP lp ll) (CP rp rl) st = push (IQuery q1) st /\
+                push_compare_ord (mirror c) (CP rp rl) (CP lp ll) st = push (IQuery q2) st /\
+                Spec.holds ffun afun regex_match q1 root vals = Spec.holds ffun afun regex_match q2 root vals.
+Proof. exact mirror_equal_rank_ord. Qed.
+Theorem C09_mirror_equal_rank_eq_paths : forall ffun afun regex_match lp ll rp rl st root vals x y,
+  (forall v, lp <> PqLit v) -> (forall v, rp <> PqLit v) -> rank (CP lp ll) = rank (CP rp rl) ->
+  Spec.operand ffun afun regex_match lp root vals = [x] -> Spec.operand ffun afun regex_match rp root vals = [y] ->
+  entry_ok x -> entry_ok y ->
+  exists q1 q2, push_compare_eq (CP lp ll) (CP rp rl) st = push (IQuery q1) st /\
+                push_compare_eq (CP rp rl) (CP lp ll) st = push (IQuery q2) st /\
+                Spec.holds ffun afun regex_match q1 root vals = Spec.holds ffun afun regex_match q2 root vals.
+Proof. exact mirror_equal_rank_eq_paths. Qed.
+Theorem C09_mirror_equal_rank_eq_literals : forall ffun afun regex_match v w ll rl st root vals vdv vdw,
+  lit_vd v = Some vdv -> lit_vd w = Some vdw ->
+  exists q1 q2, push_compare_eq (CP (PqLit v) ll) (CP (PqLit w) rl) st = push (IQuery q1) st /\
+                push_compare_eq (CP (PqLit w) rl) (CP (PqLit v) ll) st = push (IQuery q2) st /\
+                Spec.holds ffun afun regex_match q1 root vals = Spec.holds ffun afun regex_match q2 root vals.
+Proof. exact mirror_equal_rank_eq_lits. Qed.
+Theorem C09_root_operand_single : forall ffun afun regex_match n root vals,
+  exists x, Spec.operand ffun afun regex_match (PqRoot n) root vals = [x].
+Proof. exact operand_root_single. Qed.
+Theorem C09_deep_equality_symmetric : forall v w, nd_doc v -> nd_doc w -> no_opaque v -> no_opaque w -> deep_eq v w = deep_eq w v.
+Proof. exact deep_eq_sym. Qed.
+Print Assumptions C09_mirror_equal_rank_ord.
+Print Assumptions C09_mirror_equal_rank_eq_paths.
+Print Assumptions C09_mirror_equal_rank_eq_literals.
+Print Assumptions C09_deep_equality_symmetric.
 
 (* against a number literal, <= selects the union of < and ==, >= the union of > and == *)
 Theorem C09_le_lt_eq : forall rm b x, numeric_entry x ->
